@@ -531,3 +531,26 @@ def shared_id_spec():
             sp["label"] = "shared-ids"
             return sp
     raise KeyError("base model not found")
+
+
+def large_amount_specs():
+    """work amounts of the order 1e8..1e9 whose last residue (0.02) is far above the absolute finish tolerance but tiny relative to the amount"""
+    out = []
+    for W, s0, s1 in ((5e8, 1.25e8, 1.25e8 - 0.01), (1e9, 5e8, 5e8 - 0.25)):
+        tasks = [{"name": "T0", "work": W}, {"name": "T1", "work": 1.0}]
+        teams = [{"name": "TM0", "targets": [0, 1], "workers": [{"name": "W0", "skills": {"T0": s0}, "cost": 1.0}, {"name": "W1", "skills": {"T0": s1, "T1": 1.0}, "cost": 1.0}]}]
+        out.append({"tasks": tasks, "links": [[0, 1, "FS"]], "teams": teams, "label": "large-amount:%g" % W})
+    return out
+
+
+def mixed_wiring_specs():
+    """a task targeted by two teams, one wired with the helper (both sides know) and one through the constructor keyword only"""
+    out = []
+    for wv in ((3, 1), (1, 3), (2, 2)):
+        for ctor_team in (0, 1):
+            tasks = [{"name": "T0", "work": float(wv[0])}, {"name": "T1", "work": float(wv[1])}]
+            teams = [{"name": "TM0", "targets": [0, 1], "workers": [{"name": "W0", "skills": {"T0": 1.0, "T1": 1.0}, "cost": 1.0}]},
+                     {"name": "TM1", "targets": [0, 1], "workers": [{"name": "W1", "skills": {"T0": 1.0, "T1": 1.0}, "cost": 2.0}]}]
+            teams[ctor_team]["wire"] = "ctor"
+            out.append({"tasks": tasks, "links": [], "teams": teams, "label": "mixed-wiring:%s:%d" % (wv, ctor_team)})
+    return out
